@@ -142,6 +142,7 @@ var (
 	TFunc0    = &Type{"func()", reflect.TypeOf(func() {})}
 	TFuncS    = &Type{"func(string)", reflect.TypeOf(func(string) {})}
 	TFuncIE   = &Type{"func(int) error", reflect.TypeOf(func(int) error { return nil })}
+	TFunc0E   = &Type{"func() error", reflect.TypeOf(func() error { return nil })}
 	TUpper    = &Type{"Upper", reflect.TypeOf(Upper{})}
 	TPUpper   = &Type{"*Upper", reflect.TypeOf((*Upper)(nil))}
 	TUppers   = &Type{"[]Upper", reflect.TypeOf([]Upper{})}
